@@ -1,12 +1,29 @@
 #!/bin/bash
-# try_mutation.sh <patch.diff> <prop> [tier]: apply a seeded change to /repo, run the check, undo it.
+# try_mutation.sh <patch.diff> <prop> [tier]: run the check of one property against a seeded change.
+#
+# Nothing is written to /repo or to /verif's evidence and replays. The change is applied to a scratch copy of
+# /repo's working tree under /var/tmp; the check runs from a scratch copy of /verif whose harness
+# crate points at that copy and has its own build output; both are removed afterwards. A run that
+# is killed half-way leaves /var/tmp/candid-mut.* behind and nothing else.
+# (The first version patched /repo in place and undid it in an EXIT trap; a change left behind by
+# a killed run ended up committed in /repo, see DESIGN.md §14.)
+#
+# SCRATCH=<dir> reuses <dir> (and its build output) across calls and does not remove it.
 set -u
 PATCH="$(realpath "$1")"; P="$2"; TIER="${3:-quick}"
-if [ -n "$(git -C /repo status --porcelain)" ]; then echo "refusing: /repo is not clean"; exit 2; fi
-trap 'git -C /repo checkout -q -- . ; git -C /repo clean -fdq' EXIT
-git -C /repo apply "$PATCH" || { echo "patch does not apply"; exit 2; }
-cd /verif && ./check "$P" "$TIER" > /verif/work/try-$P.out 2>&1
+VERIF="$(cd "$(dirname "$0")/.." && pwd)"
+if [ -n "${SCRATCH:-}" ]; then S="$SCRATCH"; mkdir -p "$S"; else
+  S="$(mktemp -d /var/tmp/candid-mut.XXXXXX)"
+  trap 'rm -rf "$S"' EXIT INT TERM HUP
+fi
+rsync -a --delete --exclude /target --exclude /.git /repo/ "$S/repo/"
+rsync -a --delete --exclude /target --exclude /work --exclude /replays --exclude /evidence \
+      --exclude /seeded --exclude /.git "$VERIF/" "$S/verif/"
+sed -i "s#\"/repo/#\"$S/repo/#" "$S/verif/sim/Cargo.toml"
+mkdir -p "$S/verif/evidence" "$VERIF/work"
+(cd "$S/repo" && git apply "$PATCH") || { echo "patch does not apply"; exit 2; }
+(cd "$S/verif" && ./check "$P" "$TIER") > "$VERIF/work/try-$P.out" 2>&1
 rc=$?
 echo "exit=$rc"
-grep -E "^violation|^VIOLATION|^KNOWN|^HARNESS|^done" /verif/work/try-$P.out | cut -c1-700 | head -12
+grep -E "^violation|^VIOLATION|^KNOWN|^HARNESS|^done" "$VERIF/work/try-$P.out" | cut -c1-700 | head -12
 exit 0
